@@ -98,6 +98,50 @@ theorem joinTy_least (t e u : Ty) (ht : refines t u = true) (he : refines e u = 
             refine ⟨⟨te, some js⟩, by simp [joinTy, hj], ?_⟩
             simp [refines, hte, hlen, hall]
 
+theorem refinesDim_trans (c b a : Dim) (h1 : refinesDim c b = true) (h2 : refinesDim b a = true) :
+    refinesDim c a = true := by
+  cases c with
+  | const n =>
+    simp only [refinesDim, Bool.or_false, beq_iff_eq] at h1 ⊢
+    subst h1
+    simpa [refinesDim] using h2
+  | named s => simp [refinesDim]
+  | anon => simp [refinesDim]
+
+theorem refinesDims_trans : ∀ (cs bs as : List Dim), bs.length = cs.length → as.length = bs.length →
+    (cs.zip bs).all (fun p => refinesDim p.1 p.2) = true →
+    (bs.zip as).all (fun p => refinesDim p.1 p.2) = true →
+    (cs.zip as).all (fun p => refinesDim p.1 p.2) = true
+  | [], _, _, _, _, _, _ => by simp
+  | _ :: _, [], _, h, _, _, _ => by simp at h
+  | _ :: _, _ :: _, [], _, h, _, _ => by simp at h
+  | c :: cs, b :: bs, a :: as, hl1, hl2, h1, h2 => by
+    simp only [List.zip_cons_cons, List.all_cons, Bool.and_eq_true] at h1 h2 ⊢
+    exact ⟨refinesDim_trans c b a h1.1 h2.1,
+      refinesDims_trans cs bs as (by simpa using hl1) (by simpa using hl2) h1.2 h2.2⟩
+
+/-- `refines` is transitive. -/
+theorem refines_trans (a b c : Ty) (h1 : refines a b = true) (h2 : refines b c = true) :
+    refines a c = true := by
+  unfold refines at h1 h2 ⊢
+  split at h1
+  · simp at h1
+  · rename_i hab
+    split at h2
+    · simp at h2
+    · rename_i hbc
+      simp only [ne_eq, Decidable.not_not] at hab hbc
+      have hac : a.e = c.e := by rw [hab, hbc]
+      simp only [ne_eq, hac, not_true_eq_false, if_false]
+      rcases c with ⟨ce, _ | cs⟩
+      · rfl
+      · rcases b with ⟨be, _ | bs⟩
+        · simp at h2
+        · rcases a with ⟨ae, _ | as⟩
+          · simp at h1
+          · simp only [Bool.and_eq_true, beq_iff_eq] at h1 h2 ⊢
+            exact ⟨by omega, refinesDims_trans cs bs as h2.1 h1.1 h2.2 h1.2⟩
+
 theorem allTyped_eq_map : ∀ {T : List ITy} {t : List Ty}, allTyped T = some t → T = t.map some
   | [], t, h => by simp only [allTyped, Option.some.injEq] at h; subst h; rfl
   | none :: _, _, h => by simp [allTyped] at h
